@@ -19,13 +19,9 @@ import scipy.sparse as sp  # noqa: E402
 from scipy.sparse.linalg import aslinearoperator  # noqa: E402
 from pymablock.linalg import ComplementProjector  # noqa: E402
 
-HEADER = """From Coq Require Import ZArith.
-From mathcomp Require Import all_ssreflect.
+HEADER = """From Coq Require Import ZArith List.
+Import ListNotations.
 From PV Require Import LinAlg.Heap LinAlg.Projector LinAlg.ProjectorZ.
-From Coq Require List.
-Import List.ListNotations.
-Open Scope list_scope.
-Delimit Scope Z_scope with ZZ.
 """
 
 OPS = {"T": "OpT", "H": "OpH", "C": "OpC"}
@@ -53,18 +49,18 @@ def gints(arr):
 
 def cmat(rows):
     if not rows:
-        return "([::] : zmat)"
-    return "([:: %s] : zmat)" % "; ".join(
-        "[:: %s]" % "; ".join("(%d, %d)%%ZZ" % (a, b) for a, b in r) if r else "[::]" for r in rows
+        return "(nil : zmat)"
+    return "([%s] : zmat)" % "; ".join(
+        "[%s]" % "; ".join("(%d, %d)%%Z" % (a, b) for a, b in r) if r else "nil" for r in rows
     )
 
 
 def cword(w):
-    return "[:: %s]" % "; ".join(OPS[c] for c in w) if w else "([::] : seq op)"
+    return "[%s]" % "; ".join(OPS[c] for c in w) if w else "(nil : list op)"
 
 
 def cnats(l):
-    return "[:: %s]" % "; ".join(str(int(x)) for x in l) if l else "([::] : seq nat)"
+    return "[%s]" % "; ".join(str(int(x)) for x in l) if l else "(nil : list nat)"
 
 
 def copt(x):
@@ -244,13 +240,13 @@ def case_terms(case):
             out.append((label, None, "%s: %s" % (type(e).__name__, e)))
             return None
         if isinstance(v, (bool, np.bool_)):
-            out.append((label, "(%s) == %s" % (model, "true" if v else "false"), bool(v)))
+            out.append((label, "bool_eqb (%s) %s" % (model, "true" if v else "false"), bool(v)))
             return v
         if isinstance(v, str):
             out.append((label, "dtype_eqb (%s) %s" % (model, v), v))
             return v
         if isinstance(v, list):
-            out.append((label, "(%s) == %s" % (model, cnats(v)), v))
+            out.append((label, "nats_eqb (%s) %s" % (model, cnats(v)), v))
             return v
         g = gints(v)
         if g is None:
@@ -274,7 +270,7 @@ def case_terms(case):
     obs("P.H@X", lambda: P.H @ X, zap("H", m, cX))
     obs("P.T@X", lambda: P.T @ X, zap("T", m, cX))
     obs("P.dot(X)", lambda: P.dot(X), zap("", m, cX))
-    obs("P.shape", lambda: [int(s) for s in P.shape], "[:: %d; %d]" % (n, n))
+    obs("P.shape", lambda: [int(s) for s in P.shape], "[%d; %d]" % (n, n))
     hm = "zword_herm %s %s %s" % (cR, cLopt, cword(""))
     obs("P._hermitian", lambda: bool(P._hermitian), hm)
     obs("P.dtype", lambda: dtag(P.dtype), "proj_dtype %s %s (%s)" % (dtag(R.dtype), dtag(Leff.dtype), hm))
@@ -294,7 +290,7 @@ def case_terms(case):
         obs("word.rmatmat(X)", lambda: Q.rmatmat(X), zapl(w, m, cX))
         obs("X2@word", lambda: X2 @ Q, "ztr %d %d (%s)" % (n, m, zap(w + "T", m, cX2T)))
         obs("word._hermitian", lambda: bool(Q._hermitian), "zword_herm %s %s %s" % (cR, cLopt, cword(w)))
-        obs("word.shape", lambda: [int(s) for s in Q.shape], "[:: %d; %d]" % (n, n))
+        obs("word.shape", lambda: [int(s) for s in Q.shape], "[%d; %d]" % (n, n))
         obs("word.dtype", lambda: dtag(Q.dtype), "proj_dtype %s %s (%s)" % (dtag(R.dtype), dtag(Leff.dtype), hm))
         # involutions on the object reached
         obs("word.H.H is word", lambda: Q.H.H is Q, "true")
